@@ -248,6 +248,23 @@ class CompGen:
       a = c.choice(others)
       e = ["rd", a.path, a.w]
       if a.w > w:
+        if a.path[-1][0] in ("a", "i") and a.w >= 4 and c.random() < self.P.get("p_vslice", 0.12):
+          # part select with a run-time base: s.x[b : b + w], b an (clog2 width)-bit expression that can
+          # never run past the end (masked, or zero-extended from a narrower signal)
+          iw = (a.w - 1).bit_length()
+          room = a.w - w                     # largest legal base
+          srcs = [x for x in self.atoms if isinstance(x.t, int) and x.path[-1][0] in ("a", "i")]
+          same = [x for x in srcs if x.w == iw]
+          narrow = [x for x in srcs if x.w < iw and (1 << x.w) - 1 <= room]
+          m = (1 << (room.bit_length() - 1)) - 1 if room >= 1 else 0     # mask <= room (2^k - 1)
+          be = None
+          if same and m >= 1 and c.random() < 0.6:
+            be = ["bin", "and", ["rd", c.choice(same).path, iw], ["const", iw, m]]
+          elif narrow:
+            x = c.choice(narrow)
+            be = ["zext", ["rd", x.path, x.w], iw]
+          if be is not None:
+            return ["vslice", a.path, be, w]
         if c.random() < 0.6:
           lo = c.randint(0, a.w - w)
           base, off = a.path, 0
